@@ -643,7 +643,7 @@ def main():
         if r.returncode != 0:
             rc = 1
         try:
-            with open(os.path.join(ROOT, 'evidence', '%s.json' % sub)) as f:
+            with open(os.path.join(os.path.join(ALT, 'evidence') if ALT else os.path.join(ROOT, 'evidence'), '%s.json' % sub)) as f:
                 sev = json.load(f)
             sc = sev['coverage']
             ev['coverage'].setdefault('subchecks', {})[sub] = dict(
@@ -664,8 +664,10 @@ def main():
             lines.append('VIOLATION property=%s replay=%s no-failing-input-found' % (
                 rid, write_replay(pid, dict(property=pid, case=None, broken=['sub-check %s left no valid evidence: %s' % (sub, ex)]))))
     ev['wall_s'] = round(time.time() - t0, 2)
-    os.makedirs(os.path.join(ROOT, 'evidence'), exist_ok=True)
-    with open(os.path.join(ROOT, 'evidence', '%s.json' % pid), 'w') as f:
+    # evidence of a run against another checkout must not replace the evidence of /repo
+    evdir = os.path.join(ALT, 'evidence') if ALT else os.path.join(ROOT, 'evidence')
+    os.makedirs(evdir, exist_ok=True)
+    with open(os.path.join(evdir, '%s.json' % pid), 'w') as f:
         json.dump(ev, f, indent=1, sort_keys=True)
     for ln in lines:
         print(ln)
